@@ -423,8 +423,8 @@ def cli_case(case0, env):
 
 def check(tier, seed, t0):
     common.build_rg()
-    total = 900 if tier == "quick" else 48000
-    rep = common.merge_reports([("cli", common.run_cli_cases(None, cli_case, seed, "c05", total, 57 if tier == "quick" else 400))])
+    total = 6000 if tier == "quick" else 250000
+    rep = common.merge_reports([("cli", common.run_cli_cases(None, cli_case, seed, "c05", total, 375 if tier == "quick" else 800))])
     return common.finalize("C05", tier, seed, "exploration", RULE, rep, t0, ASSUME, floor_eval=300, floor_distinct=100)
 
 
